@@ -101,6 +101,7 @@ class Model:
         self.vals: T.Dict[str, T.Any] = {}
         self.builtin: T.Dict[str, str] = {}
         self.aug: T.Dict[str, str] = {}
+        self.own: T.Set[str] = set()     # yielding subproject options the user gave a value of their own
         self.cmdline: T.Dict[str, str] = {}
         self.configured = False
 
@@ -161,6 +162,10 @@ class Model:
                     self.builtin[k] = v
             else:
                 self.vals[k] = v
+                if k.startswith(SUB + ':'):
+                    d = (self.files.get('sub') or {}).get(name)
+                    if d is not None and d.get('yield'):
+                        self.own.add(k)     # an explicit value stops the option from following its parent
 
     def _reconcile(self) -> None:
         """Bring stored project options in line with the current option files."""
@@ -181,6 +186,7 @@ class Model:
         self.known = copy.deepcopy(self.files)
         if self.files['sub'] is None:
             self.aug = {}
+        self.own = {k for k in self.own if (self.files.get('sub') or {}).get(k.split(':', 1)[1], {}).get('yield')}
 
     # ------------------------------------------------------------ operations (return True = predicted success)
     def fresh(self, D: T.Dict[str, str]) -> bool:
@@ -193,6 +199,7 @@ class Model:
         self.vals = {}
         self.builtin = dict(BUILTIN_DEFAULTS)
         self.aug = {}
+        self.own = set()
         self._reconcile()
         self._store(typed)
         self.configured = True
@@ -218,8 +225,14 @@ class Model:
         except Invalid:
             return False
         for k in U:
-            if k not in m.aug:
-                return False
+            if k in m.aug or k in m.own:
+                continue
+            # -U of a subproject's project option that has nothing to drop is a harmless no-op;
+            # -U of a built-in that has no per-subproject override is an error
+            nm = k.split(':', 1)[1] if k.startswith(SUB + ':') else k
+            if k.startswith(SUB + ':') and nm not in BUILTIN_CHOICES and nm in (m.files.get('sub') or {}):
+                continue
+            return False
         # `meson configure` only writes the store back when the command changes something; a command
         # whose assignments all equal the current values leaves the directory as it was (options that
         # appeared in an edited option file are then not created yet) - but it is still recorded
@@ -230,12 +243,16 @@ class Model:
                 cur = m.aug.get(k, object()) if k.startswith(SUB + ':') else m.builtin.get(k)
             else:
                 cur = m.vals.get(k, object())
+                d = (m.files.get('sub') or {}).get(name) if k.startswith(SUB + ':') else None
+                if d is not None and d.get('yield') and k not in m.own:
+                    changed = True       # pinning a yielding option is a change even if the stored value is equal
             if cur != v:
                 changed = True
         if changed:
             m._store(typed)
             for k in U:
                 m.aug.pop(k, None)
+                m.own.discard(k)
             self.__dict__.update(m.__dict__)
         self.cmdline.update(D)
         for k in U:
@@ -287,6 +304,7 @@ class Model:
             self.configured = False
             self.known = {'top': {}, 'sub': None}
             self.vals, self.builtin, self.aug = {}, {}, {}
+            self.own = set()
             return False
         cl = self.cmdline
         self.__dict__.update(m.__dict__)
@@ -312,7 +330,7 @@ class Model:
         if sub is not None:
             for name, o in sub.items():
                 key = f'{SUB}:{name}'
-                if o.get('yield') and name in top and top[name]['type'] == o['type']:
+                if o.get('yield') and name in top and top[name]['type'] == o['type'] and key not in m.own:
                     out[key] = fmt(top[name], m.vals[name])
                 else:
                     out[key] = fmt(o, m.vals[key])
